@@ -84,6 +84,19 @@ func c06SeedsGet() *c06Seeds {
 				}
 			}
 		}
+		if only := os.Getenv("C06_ONLY_FORMAT"); only != "" {
+			// development / seeded-change aid: restrict the seed pool to the samples of one format
+			var keep []corpusItem
+			for _, it := range s.pool {
+				for _, f := range it.Formats {
+					if f == only {
+						keep = append(keep, it)
+						break
+					}
+				}
+			}
+			s.pool = keep
+		}
 		sort.Slice(s.pool, func(i, j int) bool { return s.pool[i].Path < s.pool[j].Path })
 		s.formats = append(append([]string{}, allFormats()...), "probe")
 		c06S = s
